@@ -992,6 +992,7 @@ class DatagramTap:
         if h.packet_type == C.QuicPacketType.VERSION_NEGOTIATION:
             rec["vc"] = _b(conn._version in h.supported_versions)
             rec["vm"] = _b(any(x in h.supported_versions for x in conn._configuration.supported_versions))
+            rec["ve"] = _b(h.source_cid == conn._peer_cid.cid)
         return rec
 
     def begin(self, length):
